@@ -35,7 +35,7 @@ def run(tier, seed):
         for k, v in s["stats"].items():
             cov["stats"][k] = cov["stats"].get(k, 0) + v
         for f in s["faults"]:
-            key = "panic:" + f["detail"] if f["rule"] == "panic" else "serde:%s:%s:%s" % (f["rule"], f.get("format"), sha(json.dumps(f, sort_keys=True)))
+            key = "panic:" + f["detail"] if f["rule"] == "panic" else "serde:deep-nesting:%s:%s" % (f.get("format"), f.get("depth")) if f["rule"] == "deep-nesting" else "serde:%s:%s:%s" % (f["rule"], f.get("format"), sha(json.dumps(f, sort_keys=True)))
             chk.violation(key, "%s (%s): %s %s" % (f["rule"], f.get("format"), f.get("detail", "")[:120], (f.get("value") or f.get("text") or "")[:160]), f)
         cov["samples"] += s["samples"][:1] if len(cov["samples"]) < 4 else []
     cov["distinct_nontrivial"] = cov["stats"].get("trees", 0) + cov["stats"].get("rust_values", 0) + cov["stats"].get("corruptions", 0)
